@@ -20,7 +20,7 @@ func init() {
 const valuePkg = core.ModPath + "/interpreter/value"
 
 func runC08(c *core.Ctx) {
-	c.Explanation = "Structural necessary conditions of crash-free, bounded simulation, decided on SSA of interpreter/** and tester: (sim.recursion) every recursion of the simulator is structurally descending on the syntax tree or dominated by a depth/visited guard (E9) — restart re-entry, subroutine calls, include expansion; (sim.arith) every integer division/remainder has a divisor that is a non-zero constant or is dominated by the non-zero edge of a test of the same value (same canonical access path; a test of a float does not discharge a division by its integer conversion), and every shift has a count that is unsigned, constant, masked, or dominated by a non-negative test of the same value; (sim.unwrap) every value.Unwrap[T](v) whose result is dereferenced is dominated by a test of v's type tag for T (if/switch/early-return forms, on the same v) or by a nil test of the result; built-ins: the generated Validate call dominates and the unwrapped type agrees with the declared argument type table, and every args[k] lies inside the validated arity; (sim.optnil) grammar-optional syntax fields are nil-tested before being dereferenced (E2). (sim.lock) every sync.Mutex Lock in interpreter/tester is released on every path to a return (deferred or direct Unlock; a defer registered just before the Lock counts) — a leaked lock blocks the next request forever; (sim.memo) a self-recursive graph walk that guards against cycles only with an on-path set (marked before, unmarked after the recursive calls) fills a memo on every completed call, otherwise it is exponential in the number of paths. (sim.ctxnil) typestate of the per-request objects restart() resets to nil (backend request/response, object, response): forward must-dataflow of `established` (non-nil store, non-nil edge of a nil test) inside each function, entry sets as greatest fixpoint over the call sites in package interpreter, plus what a lifecycle scope establishes before it runs its subroutine for code that only runs under a Scope.Is guard; every dereference in the lifecycle functions and in the variable objects of each scope must be established."
+	c.Explanation = "Structural necessary conditions of crash-free, bounded simulation, decided on SSA of interpreter/** and tester: (sim.recursion) every recursion of the simulator is structurally descending on the syntax tree or dominated by a depth/visited guard (E9) — restart re-entry, subroutine calls, include expansion; (sim.arith) every integer division/remainder has a divisor that is a non-zero constant or is dominated by the non-zero edge of a test of the same value (same canonical access path; a test of a float does not discharge a division by its integer conversion), and every shift has a count that is unsigned, constant, masked, or dominated by a non-negative test of the same value; (sim.unwrap) every value.Unwrap[T](v) whose result is dereferenced is dominated by a test of v's type tag for T (if/switch/early-return forms, on the same v) or by a nil test of the result; built-ins: the generated Validate call dominates and the unwrapped type agrees with the declared argument type table, and every args[k] lies inside the validated arity; (sim.optnil) grammar-optional syntax fields are nil-tested before being dereferenced (E2). (sim.lock) every sync.Mutex Lock in interpreter/tester is released on every path to a return (deferred or direct Unlock; a defer registered just before the Lock counts) — a leaked lock blocks the next request forever; (sim.memo) a self-recursive graph walk that guards against cycles only with an on-path set (marked before, unmarked after the recursive calls) fills a memo on every completed call, otherwise it is exponential in the number of paths. (sim.ctxnil) typestate of the per-request objects restart() resets to nil (backend request/response, object, response): forward must-dataflow of `established` (non-nil store, non-nil edge of a nil test) inside each function, entry sets as greatest fixpoint over the call sites in package interpreter, plus what a lifecycle scope establishes before it runs its subroutine for code that only runs under a Scope.Is guard; every dereference in the lifecycle functions and in the variable objects of each scope must be established. (sim.libpre) math/rand's Intn/Int63n get an argument that is a positive constant, len() of something tested non-empty, or dominated by a test of that very value implying n > 0; make([]T, n) with n from a VCL value is dominated by a non-negative test."
 	c.NotCovered = []string{"panics inside third-party libraries and the standard library (regexp, net, time)", "allocation blow-up and regex backtracking time", "that saturation values are the right numbers", "index arithmetic other than args[k] (slices computed from runtime lengths)"}
 	prog := c.Prog
 	u := newAstUniverse(prog)
@@ -56,6 +56,138 @@ func runC08(c *core.Ctx) {
 
 	// ---- per-request objects are established before they are dereferenced
 	checkCtxNil(c)
+
+	// ---- library calls with a precondition on a run-time argument
+	checkLibraryPreconditions(c, ifuncs)
+}
+
+// checkLibraryPreconditions (sim.libpre): math/rand's Intn/Int31n/Int63n panic unless n > 0, make([]T, n) panics for a
+// negative n. When the argument is computed from VCL values it must be a positive constant, len() of something tested
+// non-empty, or dominated by a test of the same value (same canonical access path) that implies the precondition.
+// A difference or sum of two run-time integers (`to - from + 1`) can overflow and is only accepted behind a test of the
+// result itself.
+func checkLibraryPreconditions(c *core.Ctx, funcs []*ssa.Function) {
+	n := 0
+	positive := func(op token.Token, k int64, isFloat, edgeTrue, left bool) bool {
+		if isFloat {
+			return false
+		}
+		lo, _, excl, ok := intervalOf(op, k, edgeTrue, left)
+		return ok && excl == nil && lo > 0
+	}
+	nonNeg := func(op token.Token, k int64, isFloat, edgeTrue, left bool) bool {
+		if isFloat {
+			return false
+		}
+		lo, _, excl, ok := intervalOf(op, k, edgeTrue, left)
+		return ok && excl == nil && lo >= 0
+	}
+	isLen := func(v ssa.Value) bool {
+		for {
+			if cv, ok := v.(*ssa.Convert); ok {
+				v = cv.X
+				continue
+			}
+			break
+		}
+		call, ok := v.(*ssa.Call)
+		if !ok {
+			return false
+		}
+		bi, ok := call.Common().Value.(*ssa.Builtin)
+		return ok && (bi.Name() == "len" || bi.Name() == "cap")
+	}
+	strip := func(v ssa.Value) ssa.Value {
+		for {
+			if cv, ok := v.(*ssa.Convert); ok {
+				v = cv.X
+				continue
+			}
+			return v
+		}
+	}
+	for _, fn := range funcs {
+		for _, b := range fn.Blocks {
+			for _, in := range b.Instrs {
+				var arg ssa.Value
+				what := ""
+				needPos := false
+				switch t := in.(type) {
+				case *ssa.Call:
+					cal := t.Common().StaticCallee()
+					if cal == nil || cal.Pkg == nil || (cal.Pkg.Pkg.Path() != "math/rand" && cal.Pkg.Pkg.Path() != "math/rand/v2") {
+						continue
+					}
+					switch cal.Name() {
+					case "Intn", "Int31n", "Int63n", "IntN", "Int32N", "Int64N", "N":
+						arg = t.Common().Args[len(t.Common().Args)-1]
+						what = "rand." + cal.Name()
+						needPos = true
+					default:
+						continue
+					}
+				case *ssa.MakeSlice:
+					arg = t.Len
+					what = "make([]T, n)"
+				default:
+					continue
+				}
+				if k, isK := core.ConstIntValue(arg); isK {
+					if (needPos && k > 0) || (!needPos && k >= 0) {
+						continue
+					}
+				}
+				v := strip(arg)
+				if !needPos && (isLen(v) || isUnsignedType(v.Type())) {
+					continue
+				}
+				// sums of lengths and non-negative constants
+				if !needPos {
+					if bo, ok := v.(*ssa.BinOp); ok && (bo.Op == token.ADD || bo.Op == token.MUL) {
+						okSide := func(x ssa.Value) bool {
+							x = strip(x)
+							if k, isK := core.ConstIntValue(x); isK {
+								return k >= 0
+							}
+							return isLen(x)
+						}
+						if okSide(bo.X) && okSide(bo.Y) {
+							continue
+						}
+					}
+				}
+				n++
+				key := fmt.Sprintf("%s|%s(%s)", core.FnName(fn), what, describeOperand(arg))
+				ok := false
+				how := ""
+				switch {
+				case needPos && (lenOfNonEmpty(fn, v, b) || (isLen(v) && lenTestedPositive(fn, v, b))):
+					ok, how = true, "len() of something tested non-empty"
+				case needPos && guardedCompare(fn, accessPath(v), b, positive):
+					ok, how = true, "dominated by a test of the same value that implies n > 0"
+				case !needPos && guardedCompare(fn, accessPath(v), b, nonNeg):
+					ok, how = true, "dominated by a test of the same value that implies n >= 0"
+				}
+				if ok {
+					c.Discharge("sim.libpre", key, in.Pos(), how)
+				} else if needPos {
+					c.Report("sim.libpre", key, in.Pos(), fmt.Sprintf("%s calls %s with %s, which is not dominated by a test of that very value implying n > 0 (a guard on the operands does not help: `to - from + 1` overflows for extreme operands): the call panics and takes the simulator down", core.FnName(fn), what, describeOperand(arg)))
+				} else {
+					c.Report("sim.libpre", key, in.Pos(), fmt.Sprintf("%s allocates a slice whose length (%s) comes from a VCL value and is not tested non-negative: a negative length panics (makeslice: len out of range)", core.FnName(fn), describeOperand(arg)))
+				}
+			}
+		}
+	}
+	c.Extra("library_preconditions_checked", n)
+}
+
+// lenTestedPositive: v = len(x) and a dominating edge compares len(x) (same x) with a constant so that len > 0.
+func lenTestedPositive(fn *ssa.Function, v ssa.Value, b *ssa.BasicBlock) bool {
+	call, ok := v.(*ssa.Call)
+	if !ok || len(call.Common().Args) != 1 {
+		return false
+	}
+	return lenLowerBound(fn, call.Common().Args[0], b) >= 1
 }
 
 // checkMemoisedGraphWalk: a self-recursive function (usually a closure) that protects itself against cycles with an
